@@ -128,6 +128,13 @@ func c03judge(t gen.TypeCase, depth, ti, vi int, addr bool, val interface{}) *ev
 					Case: ev.J(c03case{depth, ti, vi, addr, t.Name}), Expected: "error: " + jerr.Error(), Observed: clipS(string(so), 200)}
 			}
 		}
+		if serr != nil && jerr == nil && strings.Contains(serr.Error(), "unsupported type") {
+			// encoding/json never reaches a value of the unsupported type (nil pointer, empty
+			// slice ...); sonic rejects the type when it compiles the program
+			return &ev.Violation{Property: "C03", Key: "marshal:error-where-std-succeeds:unsupported-type-rejected-at-compile-time-although-no-value-of-it-is-encoded",
+				What: "ConfigStd.Marshal fails on a type encoding/json only rejects when a value of it is reached", Case: ev.J(c03case{depth, ti, vi, addr, t.Name}),
+				Expected: clipS(string(jo), 200), Observed: "error: " + serr.Error()}
+		}
 		return mk(cl, clipS(fmt.Sprintf("%s / err=%v", jo, jerr), 300), clipS(fmt.Sprintf("%s / err=%v", so, serr), 300))
 	}
 	if serr != nil {
@@ -170,6 +177,37 @@ func c03judge(t gen.TypeCase, depth, ti, vi int, addr bool, val interface{}) *ev
 // findings; the predicate is exact, anything else returns "".
 func c03rootCause(st, jt string) string {
 	sf, jf := strings.Fields(st), strings.Fields(jt)
+	// (0) a pointer-receiver (Text)Marshaler was printed as a plain struct: wherever the
+	//     streams differ, std has the marshaler's text ("ptN" / [N,"pm"]) and sonic has the
+	//     plain encoding {"V":N} of the same value. (The encoder's program cache is keyed by
+	//     type only: a type first compiled for a non-addressable occurrence is reused, through
+	//     OP_recurse, for addressable ones.)
+	{
+		i, j, hits, ok := 0, 0, 0, true
+		for i < len(sf) && j < len(jf) {
+			if sf[i] == jf[j] {
+				i++
+				j++
+				continue
+			}
+			plain := func(n string) bool {
+				return i+3 < len(sf) && sf[i] == "{" && sf[i+1] == `"V"` && sf[i+2] == "#"+n && sf[i+3] == "}"
+			}
+			if strings.HasPrefix(jf[j], `"pt`) && strings.HasSuffix(jf[j], `"`) && plain(strings.TrimSuffix(strings.TrimPrefix(jf[j], `"pt`), `"`)) {
+				i, j, hits = i+4, j+1, hits+1
+				continue
+			}
+			if j+3 < len(jf) && jf[j] == "[" && strings.HasPrefix(jf[j+1], "#") && jf[j+2] == `"pm"` && jf[j+3] == "]" && plain(jf[j+1][1:]) {
+				i, j, hits = i+4, j+4, hits+1
+				continue
+			}
+			ok = false
+			break
+		}
+		if ok && hits > 0 && i == len(sf) && j == len(jf) {
+			return "pointer-receiver-marshaler-of-an-addressable-value-ignored(program-cached-for-a-non-addressable-occurrence)"
+		}
+	}
 	// (1) omitempty keeps -0.0: removing every `"key" #-0` pair from sonic's stream gives std's
 	if len(sf) > len(jf) {
 		var out []string
